@@ -10,6 +10,9 @@
     symbolic value of `e`: equal normal forms = equal for all real values of x.
 (M) one minimal instance per node class that defines `_derivative`, same check; the per-class hit table (counted by
     wrapping the real `_derivative` methods) is printed in the evidence.
+(F) factor stream: evaluable.factor / function.factor of random polynomials in arguments of 0..4 axes with pairwise different lengths; the
+    derivative trees of the factored form (Monomial._derivative, first and mixed second derivatives) are evaluated by the real code and compared
+    with the exact Jacobian of the polynomial (sparse polynomial arithmetic over Fractions, `SP`).
 Candidates are confirmed on the real code (real evaluation of the derivative tree + 6-point central finite
 differences of the real `eval_once` at dyadic points) before they are reported as failing inputs.
 """
@@ -893,7 +896,9 @@ def highrank_instances(rng):
     pairs, ravels or scatters axes is exercised where a wrong axis/stride changes the result.  (class, label, expression, args, wrt)"""
     s = distinct_shape(rng, 3); u = distinct_shape(rng, 4)
     T, U, x = A('T', *s), A('U', *u), A('x', s[2])
-    args = dict(T=dyadic(rng, s), U=dyadic(rng, u), x=dyadic(rng, (s[2],)))
+    ys = distinct_shape(rng, 2); bs = rng.choice([(2, 3, 3), (3, 2, 2), (4, 2, 2)])
+    Y, B = A('Y', *ys), A('B', *bs)
+    args = dict(T=dyadic(rng, s), U=dyadic(rng, u), x=dyadic(rng, (s[2],)), Y=dyadic(rng, ys), B=dyadic(rng, bs))
     mul = lambda a, b: ev.Multiply(types.frozenmultiset([a, b]))
     add = lambda a, b: ev.Add(types.frozenmultiset([a, b]))
     cst = lambda v: ev.Constant(types.arraydata(numpy.asarray(v)))
@@ -924,6 +929,8 @@ def highrank_instances(rng):
         ('LoopConcatenate', 'LoopConcatenate_i T²[..,i:i+1]', ev.loop_concatenate(ev.InsertAxis(ev.Take(T2, li), ev.constant(1)), li), 'T'),
         ('Einsum', 'einsum(ijk,k->ji)', ev.einsum('ijk,k->ji', T2, x), 'T'),
         ('Polyval', 'Polyval(coeffs T, points x[:1])', ev.Polyval(T, ev.Take(x, cst(numpy.array([0])))), 'T') if s[2] in (2, 3, 4) else None,
+        ('Diagonalize', 'Diagonalize(Y²) (2-d operand)', ev.Diagonalize(mul(Y, Y)), 'Y'),
+        ('TakeDiag', 'TakeDiag(B²) (3-d operand)', ev.TakeDiag(mul(B, B)), 'B'),
     ]
     return [(t[0], t[1], t[2], {k: v for k, v in args.items()}, t[3]) for t in out if t is not None]
 
